@@ -561,13 +561,17 @@ func (sc *c9rScenario) judge(top *c9rSel, st c9rSite) c9rVerdict {
 	for _, t := range top.from {
 		chk(t)
 	}
+	// pg-alias-shadows-table-name is exactly: PostgreSQL, the qualifier is the hidden real name of an aliased entry of the
+	// TOP-LEVEL list that stands BEFORE the entry visible under that name (findTableName stops at the first entry whose
+	// name or alias is the qualifier). Any other disagreement around an alias equal to a table name is not that finding.
 	shadow, aliasIsTable := false, false
 	if col.q != "" {
-		for _, s := range st.scopes {
-			for _, b := range s {
-				if !b.derived && b.tab == col.q && b.hasAl && b.vis != col.q {
-					shadow = true
-				}
+		for _, b := range sc.scopeOf(top.from) {
+			if b.vis == col.q {
+				break
+			}
+			if !b.derived && b.tab == col.q && b.hasAl {
+				shadow = true
 			}
 		}
 		if cb != nil && cb.hasAl && !cb.derived && cb.tab != col.q && sc.tab(col.q) != nil {
@@ -619,13 +623,22 @@ func c9rRun(rep *vh.Report, r *vh.Rng, n int, thorough bool) {
 			nq += 8
 		}
 		for q := 0; q < nq; q++ {
-			c9rStatement(rep, r, sc, scn, q, schema, store, rh)
+			c9rStatement(rep, r, sc, scn, q, schema, store, rh, -1)
+		}
+		// the alias-shadowing family: two variants per scenario, all 24 per dialect every 12 scenarios of it
+		for j := 0; j < 2; j++ {
+			c9rStatement(rep, r, sc, scn, nq+j, schema, store, rh, ((scn/2)*2+j)%c9rShadowVariants)
 		}
 	}
 }
 
-func c9rStatement(rep *vh.Report, r *vh.Rng, sc *c9rScenario, scn, q int, schema config.TableSchemaStore, store *vh.MemKeystore, rh crypto.RegistryHandler) {
-	gen := sc.genStmt()
+func c9rStatement(rep *vh.Report, r *vh.Rng, sc *c9rScenario, scn, q int, schema config.TableSchemaStore, store *vh.MemKeystore, rh crypto.RegistryHandler, shadowVariant int) {
+	var gen *c9rSel
+	if shadowVariant >= 0 {
+		gen = sc.genShadow(shadowVariant)
+	} else {
+		gen = sc.genStmt()
+	}
 	rd := &c9rRender{my: sc.my}
 	sql := rd.sel(gen)
 	dial, dn := "RPG", "pg"
